@@ -137,4 +137,13 @@ MUTANTS = [
     ("C20", "detect", GQL, "                            if not self._should_skip(dummy_operation):\n                                statistic.operations.selected += 1", "                            statistic.operations.selected += 1", "statistic counts deselected operations as selected"),
     ("C20", "detect", "transport/prepare.py", "{\"query\": case.body}", "{\"document\": case.body}", "GraphQL document sent under the wrong member"),
     ("C20", "quiet", GQL, "    hook_context = HookContext(operation)\n    custom_scalars = {**get_extra_scalar_strategies(), **CUSTOM_SCALARS}\n", "    custom_scalars = {**get_extra_scalar_strategies(), **CUSTOM_SCALARS}\n    hook_context = HookContext(operation)\n", "independent statements reordered"),
+    # ---- third-round contracts
+    ("C01", "detect", "specs/openapi/parameters.py", "        \"maxLength\",\n        \"minLength\",\n        \"pattern\",\n        \"maxItems\",\n        \"minItems\",\n        \"uniqueItems\",\n        \"enum\",\n        \"multipleOf\",", "        \"maxLength\",\n        \"minLength\",\n        \"maxItems\",\n        \"minItems\",\n        \"uniqueItems\",\n        \"enum\",\n        \"multipleOf\",", "Swagger 2 parameters lose their pattern"),
+    ("C01", "detect", "specs/openapi/parameters.py", "        \"maxProperties\",\n        \"minProperties\",\n        \"required\",\n        \"enum\",", "        \"maxProperties\",\n        \"minProperties\",\n        \"required\",", "OpenAPI 3 parameters lose their enum"),
+    ("C02", "detect", "specs/openapi/negative/__init__.py", "            if value is not None:\n                result.append(", "            if value:\n                result.append(", "is_non_empty_query treats 0 / '' / False values as absent"),
+    ("C04", "detect", "core/media_types.py", "    return main == \"application\" and (sub == \"json\" or sub.endswith(\"+json\"))", "    return sub == \"json\" or sub.endswith(\"+json\")", "text/json counted as JSON"),
+    ("C05", "detect", "cli/commands/run/context.py", "                    else:\n                        # This failure was already seen - skip it\n                        continue\n\n            if current_case_failures:", "                    else:\n                        # This failure was already seen - skip it\n                        break\n\n            if current_case_failures:", "a repeated failure hides the new ones after it"),
+    ("C08", "detect", "specs/openapi/schemas.py", "        path = path.replace(\"~1\", \"/\").replace(\"~0\", \"~\")\n        # Check the traversal cache", "        path = path.replace(\"~1\", \"/\")\n        # Check the traversal cache", "reference lookup never decodes ~0"),
+    ("C09", "detect", "generation/case.py", "            curl = self.as_curl_command(headers=dict(response.request.headers), verify=verify)", "            curl = self.as_curl_command(headers=dict(self.headers or {}), verify=verify)", "failure message's curl built from the case headers, not the sent ones"),
+    ("C10", "detect", "specs/openapi/stateful/__init__.py", "                    if isinstance(extracted.value, Ok) and extracted.value.ok() not in (None, UNRESOLVABLE)", "                    if isinstance(extracted.value, Ok) and extracted.value.ok() is not None", "UNRESOLVABLE marker passed on as a parameter value"),
 ]
